@@ -54,8 +54,8 @@ func (v *wireView) dispatchCode(l Lit) (int64, bool) {
 	if z, isZ := intConst(ia.Index); !isZ || z != 0 {
 		return 0, false
 	}
-	// the indexed slice is what the framed read of the connection returned
-	ex, ok := throughCell(strip(ia.X)).(*ssa.Extract)
+	// the indexed slice is what the framed read of the connection returned (possibly handed to a helper)
+	ex, ok := v.w.resolveUp(v.serve, throughCell(strip(ia.X))).(*ssa.Extract)
 	if !ok || ex.Index != 0 {
 		return 0, false
 	}
@@ -80,12 +80,12 @@ func (v *wireView) inArmD(ins ssa.Instruction, k int64, depth int) bool {
 	for g.Parent() != nil {
 		g = g.Parent()
 	}
-	if g == v.serve {
-		for l := range f.Primary(ins.Block()) {
-			if kk, ok := v.dispatchCode(l); ok && kk == k {
-				return true
-			}
+	for l := range f.Primary(ins.Block()) {
+		if kk, ok := v.dispatchCode(l); ok && kk == k {
+			return true
 		}
+	}
+	if g == v.serve {
 		return false
 	}
 	for _, s := range v.w.sitesIn(v.serve, g) {
@@ -191,6 +191,16 @@ func (v *wireView) comparedLits(root *ssa.Function) map[string]bool {
 	for _, fn := range v.w.Tree(root) {
 		for _, b := range fn.Blocks {
 			for _, ins := range b.Instrs {
+				// bytes.Equal(<[]byte>, []byte("..."))
+				if be, ok := ins.(*ssa.Call); ok && calleeName(be) == "bytes.Equal" && len(be.Call.Args) == 2 {
+					for _, a := range be.Call.Args {
+						if cv, ok := v.w.canon(root, a).(*ssa.Convert); ok {
+							if s, ok := strConst(v.w.canon(root, cv.X)); ok {
+								out[s] = true
+							}
+						}
+					}
+				}
 				bin, ok := ins.(*ssa.BinOp)
 				if !ok || (bin.Op != token.EQL && bin.Op != token.NEQ) {
 					continue
